@@ -535,11 +535,17 @@ class SelectorScenario:
         )
 
     def required_probes(self, tier):
-        return {
-            "C01": ["threshold_stop"],
+        req = {
+            "C01": ["threshold_stop", "threshold_stop_inside_warm_fit"],
             "C06": ["voronoi_sparse_update_with_pruned_candidates", "voronoi_full_update"],
             "C08": ["compared_after_warm_start", "warm_start_on_unfitted_rejected"],
         }[self.pid]
+        if tier == "thorough":
+            req = req + {
+                "C06": ["all_128_calibration_outcomes_forced_on_one_input"],
+                "C08": ["every_increasing_schedule_up_to_6_on_one_input"],
+            }.get(self.pid, [])
+        return req
 
     def real_components(self):
         return [
